@@ -7,6 +7,8 @@ TRACE_SET = ("openat,open,creat,openat2,close,copy_file_range,sendfile,splice,wr
              "fsetxattr,setxattr,lsetxattr,fsync,fdatasync,sync_file_range,mkdir,mkdirat,symlink,symlinkat,mknod,mknodat,rename,renameat,"
              "renameat2,unlink,unlinkat,rmdir,link,linkat,getdents64,dup,dup2,dup3,fcntl")
 
+_timeouts = [0]      # runs that hit their time limit in this process: a hanging build under test must not cost hours
+
 class Run:
     __slots__ = ("args", "exit", "sig", "wall", "stderr", "trace", "timed_out", "cwd")
 
@@ -43,6 +45,8 @@ def run_xcp(binary, args, cwd, env=None, strace=None, timeout=60, nofile=None, u
             resource.setrlimit(resource.RLIMIT_NOFILE, (nofile, nofile))
         if umask is not None:
             os.umask(umask)
+    if _timeouts[0] >= 6:
+        timeout = min(timeout, 12)        # fault-free runs take well under a second; keep observing, but quickly
     t0 = time.time()
     p = subprocess.Popen(cmd, cwd=cwd, env=e, stdin=subprocess.DEVNULL, stdout=subprocess.DEVNULL,
                          stderr=subprocess.PIPE, preexec_fn=pre)
@@ -51,6 +55,7 @@ def run_xcp(binary, args, cwd, env=None, strace=None, timeout=60, nofile=None, u
         _, err = p.communicate(timeout=timeout)
     except subprocess.TimeoutExpired:
         r.timed_out = True
+        _timeouts[0] += 1
         try:
             os.killpg(p.pid, signal.SIGKILL)
         except ProcessLookupError:
